@@ -134,6 +134,7 @@ _TURBOFISH = re.compile(r'::<')
 def normalise_callee(c):
     """drop generic arguments from a callee path (but keep `<T as Trait>` / `<impl ..>` segments readable)"""
     c = norm_ty(c)
+    c = re.sub(r'::<impl [^<>]*>$', '', c)      # `f::<impl FnOnce(..)>`: generic argument list of the function itself
     out = []
     i = 0
     n = len(c)
